@@ -40,7 +40,9 @@ def gen_filler(rng):
     if k == 0:
         p = b""
     elif k == 1:
-        p = bytes([rng.randrange(256)])
+        # 1-byte payload; often a sync byte, so that a reader which does not consume the
+        # frame by its declared length re-scans it as the start of something else
+        p = bytes([rng.choice((0xD3, 0x24, 0xB5, 0x76, 0x82, 0xFF, rng.randrange(256), rng.randrange(256)))])
     elif k == 2:
         p = wire.rtcm_payload(4076, rng.getrandbits(4), 2)
     else:
@@ -583,3 +585,49 @@ def make_decider(scn, kind):
         return TimedDecider(arr, close_at, sch["timeout"], sch["think"], wait_full=(kind == "serial"))
     faults = SERIAL_FAULTS if kind == "serial" else SOCK_FAULTS
     return RngDecider(R.random.Random(sch["seed"]), {"seg": sch["seg"], "p_fault": sch.get("p_fault", 0.0), "faults": faults, "aims": sch.get("aims", ())})
+
+
+# ---------------------------------------------------------------------------
+# user error handlers ("error handling object or function")
+# ---------------------------------------------------------------------------
+
+HANDLER_KINDS = ("method", "function", "collector", "falsy")
+
+
+class _Collector:
+    """a callable error collector: a container of the errors seen so far,
+    hence falsy while empty"""
+
+    def __init__(self, calls):
+        self._calls = calls
+
+    def __call__(self, err):
+        self._calls.append(err)
+
+    def __len__(self):
+        return len(self._calls)
+
+
+class _Falsy:
+    def __init__(self, calls):
+        self._calls = calls
+
+    def __call__(self, err):
+        self._calls.append(err)
+
+    def __bool__(self):
+        return False
+
+
+def make_handler(opt):
+    """(constructor kwargs, list that records every handler invocation)"""
+    calls = []
+    if not opt:
+        return {}, calls
+    if opt in (True, "method"):
+        return {"errorhandler": calls.append}, calls
+    if opt == "function":
+        return {"errorhandler": lambda err: calls.append(err)}, calls
+    if opt == "collector":
+        return {"errorhandler": _Collector(calls)}, calls
+    return {"errorhandler": _Falsy(calls)}, calls
